@@ -1572,6 +1572,10 @@ func archCompat(r *Run, w *World) {
 		return
 	}
 	num := regexp.MustCompile(`^(.+) == ([0-9]+)$`)
+	rtRe := regexp.MustCompile(`rule\.reverseArch\[rule\.getRuntimeArch\(\)#0\]`)
+	hasRe := regexp.MustCompile(`^has\((rule\.\w+), (.+)\)$`)
+	valRe := regexp.MustCompile(`^(.+) == rangeval\(range\((rule\.\w+)\)\)$`)
+	idxRe := regexp.MustCompile(`^(.+) == (rule\.\w+)\[(.+)\]$`)
 	seenB := map[string]bool{}
 	for _, p := range ps {
 		ret := p.Ret()
@@ -1583,29 +1587,162 @@ func archCompat(r *Run, w *World) {
 			continue
 		}
 		reqK, rtK, rtTerm, eqRT := "", "", "", false
-		for _, l := range p.Lits() {
+		lits := p.Lits()
+		// the runtime architecture's term: the reverseArch lookup of getRuntimeArch's result
+		for _, l := range lits {
+			if m := rtRe.FindString(l); m != "" {
+				rtTerm = m
+			}
+		}
+		// sets and pairs read from read-only tables (a compat table instead of switches)
+		var reqSet, rtSet map[string]bool
+		var pairs [][2]string
+		tableOf := func(tname string) ([]KV, bool) {
+			i := strings.Index(tname, ".")
+			if i < 0 {
+				return nil, false
+			}
+			g, ok := r.globalOf("rule", tname[i+1:])
+			if !ok || w.roTable(g) == nil {
+				return nil, false
+			}
+			ents, _, _, err := w.MapLit("rule", tname[i+1:])
+			return ents, err == nil
+		}
+		nm := func(c constant.Value) string {
+			k, _ := cUint(c)
+			return nameOf[fmt.Sprint(k)]
+		}
+		intersect := func(cur map[string]bool, add map[string]bool) map[string]bool {
+			if cur == nil {
+				return add
+			}
+			out := map[string]bool{}
+			for k := range cur {
+				if add[k] {
+					out[k] = true
+				}
+			}
+			return out
+		}
+		undecidedTable := false
+		for _, l := range lits {
 			if m := num.FindStringSubmatch(l); m != nil {
 				if m[1] == "p0" {
 					reqK = m[2]
-				} else {
-					rtK, rtTerm = m[2], m[1]
+				} else if m[1] == rtTerm {
+					rtK = m[2]
 				}
 				continue
 			}
-			if strings.HasPrefix(l, "p0 == ") && !strings.HasPrefix(l, "p0 == \"") {
+			if rtTerm != "" && l == "p0 == "+rtTerm {
 				eqRT = true
-				if rtTerm == "" {
-					rtTerm = strings.TrimPrefix(l, "p0 == ")
+				continue
+			}
+			if m := hasRe.FindStringSubmatch(l); m != nil && (m[2] == "p0" || m[2] == rtTerm) {
+				ents, ok := tableOf(m[1])
+				if !ok {
+					undecidedTable = true
+					continue
+				}
+				set := map[string]bool{}
+				for _, kv := range ents {
+					set[nm(kv.KeyC)] = true
+				}
+				if m[2] == "p0" {
+					reqSet = intersect(reqSet, set)
+				} else {
+					rtSet = intersect(rtSet, set)
+				}
+				continue
+			}
+			if m := valRe.FindStringSubmatch(l); m != nil && (m[1] == "p0" || m[1] == rtTerm) {
+				ents, ok := tableOf(m[2])
+				if !ok {
+					undecidedTable = true
+					continue
+				}
+				set := map[string]bool{}
+				for _, kv := range ents {
+					set[nm(kv.ValC)] = true
+				}
+				if m[1] == "p0" {
+					reqSet = intersect(reqSet, set)
+				} else {
+					rtSet = intersect(rtSet, set)
+				}
+				continue
+			}
+			if m := idxRe.FindStringSubmatch(l); m != nil && m[1] == "p0" && m[3] == rtTerm {
+				ents, ok := tableOf(m[2])
+				if !ok {
+					undecidedTable = true
+					continue
+				}
+				for _, kv := range ents {
+					pairs = append(pairs, [2]string{nm(kv.KeyC), nm(kv.ValC)})
 				}
 			}
 		}
-		_ = rtTerm
 		req, rt := nameOf[reqK], nameOf[rtK]
 		if eqRT {
 			if req == "" {
 				req = rt
 			}
 			rt = req
+		}
+		if (req == "" || rt == "") && !undecidedTable && (reqSet != nil || rtSet != nil || pairs != nil) {
+			// every (runtime, requested) combination the tables allow on this path
+			var cands [][2]string
+			switch {
+			case pairs != nil:
+				for _, pr := range pairs {
+					if (rtSet == nil || rtSet[pr[0]]) && (reqSet == nil || reqSet[pr[1]]) && (rt == "" || rt == pr[0]) && (req == "" || req == pr[1]) {
+						cands = append(cands, pr)
+					}
+				}
+			case eqRT:
+				set := intersect(reqSet, rtSet)
+				if reqSet == nil {
+					set = rtSet
+				} else if rtSet == nil {
+					set = reqSet
+				}
+				for k := range set {
+					cands = append(cands, [2]string{k, k})
+				}
+			default:
+				rs, qs := rtSet, reqSet
+				if rs == nil && rt != "" {
+					rs = map[string]bool{rt: true}
+				}
+				if qs == nil && req != "" {
+					qs = map[string]bool{req: true}
+				}
+				for a := range rs {
+					for b := range qs {
+						if a != b { // the path has requested != runtime
+							cands = append(cands, [2]string{a, b})
+						}
+					}
+				}
+			}
+			sort.Slice(cands, func(i, j int) bool { return cands[i][0]+cands[i][1] < cands[j][0]+cands[j][1] })
+			if len(cands) > 0 {
+				for _, c := range cands {
+					k2 := fmt.Sprintf("getDisplayArch %s for %s on %s (table)", name, orQ(c[1]), orQ(c[0]))
+					if seenB[k2] {
+						continue
+					}
+					seenB[k2] = true
+					if name == "b64" {
+						r.Check(c[0] == c[1] && compat[c[0]] != "", k2, ret.Pos(), "", fmt.Sprintf("architecture %s on a %s runtime is listed as b64, which getArch resolves to the runtime architecture (and only on a 64-bit one)", c[1], c[0]))
+					} else {
+						r.Check((c[0] == c[1] && self32[c[0]]) || compat[c[0]] == c[1], k2, ret.Pos(), "", fmt.Sprintf("architecture %s on a %s runtime is listed as b32, which getArch resolves to %s there: the listed rule re-encodes to another architecture", c[1], c[0], orQ(compat[c[0]])))
+					}
+				}
+				continue
+			}
 		}
 		key := fmt.Sprintf("getDisplayArch %s for %s on %s", name, orQ(req), orQ(rt))
 		if seenB[key] {
